@@ -391,3 +391,11 @@ def _real_kp(rng, n):
 Unit("C24", "Kpoint_and_neighbours with real eigh / SVD on random overlaps", concrete=_real_kp,
      bounded_desc="installed Kpoint_and_neighbours on 6 (quick) / 30 (thorough) random cases (4-7 bands, 2-3 Wannier functions, 2-4 neighbours, random frozen / outer masks, unitary overlaps): "
                   "U^dagger U = 1, projector keeps every frozen band, exact zeros outside the outer window -- after __init__, update(localise=False, mixing) and update(localise=True)")
+
+# ------------------------------------------------------------------ the window selection wannierise() relies on (C15's unit, registered here too):
+# the frozen set (include_degen=False) never cuts a multiplet and holds every band whose multiplet lies inside the frozen window; the outer set
+# (include_degen=True) holds nothing that is not inside the outer window or degenerate-chained to it
+from contracts.C15 import _swd_unit as _c15_swd
+for _nb in (3, 4):
+    for _inc in (True, False):
+        _c15_swd(_nb, _inc, prop="C24")
